@@ -444,7 +444,7 @@ def run_case(prop, case):
               "idents": [th["ident"] for th in case["threads"]], "start_after": [th["start_after"] for th in case["threads"]],
               "tensors": [len(q["inputs"]) for q in pool], "sampler": sc["sampler"],
               "schedule_segments": simthreads.segments(sched.trace)[:60], "context_switches": sched.switches,
-              "preemption_points": sched.points}
+              "preemption_points": sched.points, "interesting": sched.switches >= 3 and len(case["threads"]) >= 2}
     return {"violations": violations, "digest": log.digest(), "counters": dict(counters), "faults": dict(faults),
             "states": list(states), "sim_seconds": clk.now, "nontrivial": bool(sched.switches or nq >= 2), "sample": sample,
             "_trace": list(sched.trace)}
